@@ -1916,12 +1916,20 @@ impl<'de, 'e> de::Deserializer<'de> for YamlDeserializer<'de, 'e> {
             }
             "__yaml_rc_recursion" => {
                 let anchor = self.peek_anchor_id()?;
+                // A dangling link is written as `null`: hand it to the visitor as a unit.
+                if anchor.is_none() && self.take_unanchored_null()? {
+                    return visitor.visit_unit();
+                }
                 anchor_store::with_anchor_context(AnchorKind::RcRecursive, anchor, || {
                     visitor.visit_newtype_struct(self)
                 })
             }
             "__yaml_arc_recursion" => {
                 let anchor = self.peek_anchor_id()?;
+                // A dangling link is written as `null`: hand it to the visitor as a unit.
+                if anchor.is_none() && self.take_unanchored_null()? {
+                    return visitor.visit_unit();
+                }
                 anchor_store::with_anchor_context(AnchorKind::ArcRecursive, anchor, || {
                     visitor.visit_newtype_struct(self)
                 })
